@@ -79,6 +79,9 @@ type features struct {
 	MultiSp  bool // several spaces / newlines in the source
 	FontSize bool // spans with their own font size
 	Glue     bool // span edges / atomics in the middle of words
+	// Leaf: inline boxes are not nested and hold a single text node (words only); used with
+	// overflow-wrap (findings D17, D18)
+	Leaf bool
 }
 
 func (g *pgen) word() string { return g.wordH(true) }
@@ -158,9 +161,10 @@ func (g *pgen) seq(depth int, want int) {
 			switch {
 			case single:
 				g.toks = append(g.toks, tok{k: 'w', s: g.wordH(false)})
-			case g.wrap && n.MR+n.BR+n.PR > 0 && !lifted("D9"):
+			case g.feat.Leaf, g.wrap && n.MR+n.BR+n.PR > 0 && !lifted("D9"):
 				// finding D9: the end spacing is charged by re-splitting the last child only, so
-				// a span with end spacing holds nothing but words (one text node)
+				// a span with end spacing holds nothing but words (one text node); so do the
+				// spans of overflow-wrap paragraphs (feat.Leaf, finding D17)
 				for k := 1 + g.r.Intn(4); k > 0; k-- {
 					g.toks = append(g.toks, tok{k: 'w', s: g.word()})
 				}
@@ -444,6 +448,7 @@ func (f features) String() string {
 	add(f.MultiSp, "multisp")
 	add(f.FontSize, "fontsize")
 	add(f.Glue, "glue")
+	add(f.Leaf, "leaf")
 	if len(s) == 0 {
 		return "plain"
 	}
